@@ -230,6 +230,11 @@ def check_lookup(prog, res, rule, fn, table, key_idx, n_fields):
     res.functions.add(fn)
     elem = "(Iterator::next(mut(%s)) as Some).0" % table
     want = frozenset(["%s.%d - arg1 == 0" % (elem, key_idx), "Iterator::next(mut(%s)) is Some" % table])
+    if not tabs and lookup_by_find(prog, an, sy, table, key_idx, n_fields):
+        # `TABLE.iter().find(|row| row.K == arg).map(|&(a, b)| Row { a, b }).ok_or(err)`: the same total lookup
+        res.oblige(True, "table-lookup")
+        res.hit(rule)
+        return True
     if len(tabs) != 1 or [p for p in tabs[0].paths] != [want]:
         got = [sorted(p) for tb in tabs for p in tb.paths]
         res.oblige(False)
@@ -245,6 +250,28 @@ def check_lookup(prog, res, rule, fn, table, key_idx, n_fields):
     res.oblige(True, "table-lookup")
     res.hit(rule)
     return True
+
+
+def lookup_by_find(prog, an, sy, table, key_idx, n_fields):
+    """the function's value is `ok_or(map(find(iter(TABLE), |x| x.K == arg1), |x| Row{x.0, .., x.n-1}), Err)` (either
+    operand order of the comparison; `copied()`/`cloned()` transparent)"""
+    rets = [sy.name(t) for _, t in an.ret_assignments()]
+    if len(rets) != 1:
+        return False
+    r = rets[0]
+    it = "mut(<impl [T]>::iter(%s))" % table
+    alt_it = "<impl [T]>::iter(%s)" % table
+    import re as _re
+    m = _re.match(r"^Option::<T>::ok_or\(Option::<T>::map\(Iterator::find\((.*?),\|x\| (.*?)\),\|x\| adt:[\w:]+\{(.*?)\}\),.*\)$", r)
+    if not m:
+        return False
+    src, pred, fields = m.group(1), m.group(2), m.group(3)
+    # the table may be named through a slice coercion
+    src_ok = table in src and ("<impl [T]>::iter(" in src) and "filter" not in src and "skip" not in src and "take" not in src
+    pred_ok = pred in ("x.%d Eq arg1" % key_idx, "arg1 Eq x.%d" % key_idx)
+    want_fields = ", ".join("*carg0.%d" % i for i in range(n_fields))
+    alt_fields = ", ".join("carg0.%d" % i for i in range(n_fields))
+    return src_ok and pred_ok and fields.replace("&", "") in (want_fields, alt_fields)
 
 
 _ICO = {}
